@@ -169,7 +169,7 @@ func c04Wrapper(cfg ACfg, k c04Case, db *wt.Whisper, ref FetchObs, refN int) (si
 
 func runC04(c *fw.Ctx) {
 	layouts := append([]LayoutDef{}, CoreLayouts...)
-	layouts = append(layouts, LP)
+	layouts = append(layouts, LP, LayoutByTag("L11"))
 	eras := []string{"mid", "high", "low"}
 	ncore := len(layouts)
 	if c.Thorough() {
@@ -186,7 +186,7 @@ func runC04(c *fw.Ctx) {
 	c.R.Bounds["windows"] = "all pairs of instants in [now-Rmax-2, now+2] (boundary instants when Rmax>24) + from in {0,1} + until in {0,2^32-1} + inverted"
 	for li, ld := range layouts {
 		full := c.Thorough() && li < len(CoreLayouts)
-		clocks := Clocks(ld.Archs, c.Thorough() && li < len(CoreLayouts)+1, eras)
+		clocks := Clocks(ld.Archs, c.Thorough() && li < len(CoreLayouts)+1, eras) // (full phase sets for the core layouts and LP)
 		if !c.Thorough() && li >= ncore {
 			m := Clocks(ld.Archs, false, []string{"mid"})
 			clocks = []int64{m[0], m[len(m)/2], m[len(m)-1]}
